@@ -64,3 +64,15 @@ Proof.
   destruct (to_syms _ (group2 (rev acc))) as [[syms extra]| | |]; cbn [bind]; try reflexivity.
   rewrite rev_app_distr, rev_involutive, <- app_assoc. reflexivity.
 Qed.
+
+(* non-vacuity: RC5x's tables (the pause -3556 between the two halves of the frame arrives merged with the neighbouring halves),
+   the frame encode(device=5, sub_device=9, function=17) emits *)
+Example rc5x_frame_parses :
+  let frame := [889; -889; 1778; -889; 889; -889; 889; -1778; 1778; -1778; 889; -3556; 889; -889; 889; -1778; 1778; -889; 889; -1778;
+                1778; -1778; 1778; -889; 889; -889; 889; -1778; 889; -75773] in
+  match parseMT 20 [889] [114000] [MInt (-3556)] [(889, -889); (-889, 889)] frame with
+  | Ok p => p_bits p = [true; false; false; false; true; false; true; false; false; true; false; false; true; false; true; false; false; false; true]
+            /\ p_norm p = frame
+  | _ => False
+  end.
+Proof. vm_compute. split; reflexivity. Qed.
